@@ -619,14 +619,14 @@ func CorpusScns() map[string]*Scn {
 		"include": {Files: files("compose.yaml", corpusIncludeMain, "inc/one.yaml", corpusIncludeOne, "inc/one.env", "O=1\n",
 			"inc/.env", "ONETAG=fromdotenv\n", "inc2/two.yaml", corpusIncludeTwo, "inc2/two.env", "TWOTAG=fromenvfile\n", "inc2/two.conf", "c"),
 			Main: []string{"compose.yaml"}, Env: map[string]string{"MAINTAG": "m"}},
-		"rich2":        {Files: files("compose.yaml", corpusRich2, "misc.labels", "ML=1\n", "raw.env", "RAW=not interpolated #kept\n"), Main: []string{"compose.yaml"}},
-		"rich3":        {Files: files("compose.yaml", corpusRich3, "s", "sec", "c", "cfg"), Main: []string{"compose.yaml"}, Env: map[string]string{"CENV": "CANARY-config-env"}},
+		"rich2":         {Files: files("compose.yaml", corpusRich2, "misc.labels", "ML=1\n", "raw.env", "RAW=not interpolated #kept\n"), Main: []string{"compose.yaml"}},
+		"rich3":         {Files: files("compose.yaml", corpusRich3, "s", "sec", "c", "cfg"), Main: []string{"compose.yaml"}, Env: map[string]string{"CENV": "CANARY-config-env"}},
 		"typed-strings": {Files: files("compose.yaml", corpusTypedStrings), Main: []string{"compose.yaml"}},
-		"profiles":     {Files: files("compose.yaml", corpusProfiles), Main: []string{"compose.yaml"}},
-		"version":      {Files: files("compose.yaml", corpusVersion), Main: []string{"compose.yaml"}},
-		"bad-schema":   {Files: files("compose.yaml", corpusInvalidSchema), Main: []string{"compose.yaml"}},
-		"bad-consist":  {Files: files("compose.yaml", corpusInvalidConsistency), Main: []string{"compose.yaml"}},
-		"bad-cycle":    {Files: files("compose.yaml", corpusInvalidCycle), Main: []string{"compose.yaml"}},
-		"missing-file": {Files: files("compose.yaml", corpusExtendsMain), Main: []string{"compose.yaml"}},
+		"profiles":      {Files: files("compose.yaml", corpusProfiles), Main: []string{"compose.yaml"}},
+		"version":       {Files: files("compose.yaml", corpusVersion), Main: []string{"compose.yaml"}},
+		"bad-schema":    {Files: files("compose.yaml", corpusInvalidSchema), Main: []string{"compose.yaml"}},
+		"bad-consist":   {Files: files("compose.yaml", corpusInvalidConsistency), Main: []string{"compose.yaml"}},
+		"bad-cycle":     {Files: files("compose.yaml", corpusInvalidCycle), Main: []string{"compose.yaml"}},
+		"missing-file":  {Files: files("compose.yaml", corpusExtendsMain), Main: []string{"compose.yaml"}},
 	}
 }
